@@ -92,11 +92,23 @@ Fixpoint printable (s : sx) : bool :=
   end.
 
 (* an AST the parser can produce: literal-only containers are folded into constants (parse_array /
-   parse_map, `literal_only`), so an EArr / EMap node has at least one non-constant or spread item *)
+   parse_map, `literal_only`), so an EArr / EMap node has at least one non-constant or spread item,
+   and a folded map constant has distinct keys *)
+Fixpoint keys_nodup (ks : list mkey) : bool :=
+  match ks with [] => true | k :: r => negb (existsb (mkey_eqb k) r) && keys_nodup r end.
+(* a constant the parser can have folded: a folded map is a HashMap, its keys are distinct *)
+Fixpoint const_ok (c : const) : bool :=
+  match c with
+  | CArr l => forallb const_ok l
+  | CMap m => keys_nodup (map fst m) && forallb (fun kv : mkey * const => const_ok (snd kv)) m
+  | _ => true
+  end.
+
 Fixpoint normal (e : expr) : bool :=
   let on := fun (o : option expr) => match o with Some x => normal x | None => true end in
   match e with
-  | EConst _ | EVar _ => true
+  | EConst c => const_ok c
+  | EVar _ => true
   | EAttr e _ _ => normal e
   | EItem e i _ => normal e && normal i
   | ESlice e a b c _ => normal e && on a && on b && on c
